@@ -118,3 +118,7 @@ mod test {
         assert_le!(core::mem::size_of::<Node>(), 32);
     }
 }
+
+// verification hook: harness text lives outside the repository (see MANIFEST.hooks)
+#[cfg(any(kani, sudachi_verif))]
+include!(concat!(env!("SUDACHI_VERIF_DIR"), "/analysis__inner.rs"));
